@@ -1,11 +1,11 @@
 """C01: no source ack before every destination (or the DLQ) confirmed."""
 import os, sys
 sys.path.insert(0, os.path.dirname(__file__))
-from funnel_common import funnel_job, funnel_conc_job, funnel_shared_job, FUNNEL_RULE, FUNNEL_ASSUME
+from funnel_common import arbiter_job, funnel_job, funnel_conc_job, funnel_shared_job, FUNNEL_RULE, FUNNEL_ASSUME
 
 PROP = {
     "lean_modules": ["ConduitModel.Props.ArbiterProps"],
-    "jobs": [funnel_job("C01"), funnel_conc_job("C01"), funnel_shared_job("C01")],
+    "jobs": [funnel_job("C01"), funnel_conc_job("C01"), funnel_shared_job("C01"), arbiter_job()],
     "rule": FUNNEL_RULE,
     "strength": 'fan-out arbitration: full (all M, n, vote orders); whole pass: partial (see note)',
     "assumptions": FUNNEL_ASSUME,
